@@ -3,7 +3,7 @@
 from __future__ import annotations
 
 from contextlib import suppress
-from typing import TYPE_CHECKING
+from typing import TYPE_CHECKING, Any
 
 from ..language.source import Source, is_source
 from ..pyutils import inspect
@@ -51,7 +51,26 @@ def located_error(
         positions = original_error.positions  # type: ignore
     except AttributeError:
         positions = None
+    else:
+        if not is_collection_of(positions, int):
+            positions = None  # not a collection of offsets, ignore it
 
     with suppress_attribute_error:
-        nodes = original_error.nodes or nodes  # type: ignore
+        original_nodes = original_error.nodes  # type: ignore
+        if is_node_collection(original_nodes):
+            nodes = original_nodes or nodes
     return GraphQLError(message, nodes, source, positions, path, original_error)
+
+
+def is_collection_of(value: Any, item_type: type) -> bool:
+    """Check whether the value is a list or tuple with items of the given type."""
+    return isinstance(value, (list, tuple)) and all(
+        isinstance(item, item_type) for item in value
+    )
+
+
+def is_node_collection(value: Any) -> bool:
+    """Check whether the value is an AST node or a list or tuple of AST nodes."""
+    from ..language.ast import Node  # lazy import to avoid a cyclic dependency
+
+    return isinstance(value, Node) or is_collection_of(value, Node)
